@@ -18,6 +18,9 @@ import time
 from concurrent.futures import ThreadPoolExecutor
 
 VERIF = os.path.dirname(os.path.dirname(os.path.abspath(__file__)))
+# evidence/ and replays/ of this run; set by seeded/try.sh so that runs against seeded changes do not overwrite the
+# evidence of the real tree
+OUT = os.environ.get('VERIF_OUT', VERIF)
 REPO = os.environ.get('VERIF_REPO', '/repo')
 SPEC = os.path.join(VERIF, 'spec')
 TLA_CP = '/opt/veriftools/tla/tla2tools.jar:/opt/veriftools/tla/CommunityModules-deps.jar'
@@ -221,7 +224,7 @@ class Check:
         self.beyond_obs = {}
         self.rule = ''
         self.rng = random.Random(seed())
-        shutil.rmtree(os.path.join(VERIF, 'replays', pid), True)      # replay files of earlier runs
+        shutil.rmtree(os.path.join(OUT, 'replays', pid), True)      # replay files of earlier runs
 
     # -- counting ---------------------------------------------------------------------------
     def count(self, n=1):
@@ -263,7 +266,7 @@ class Check:
         for key, h in sorted(self.known_hits.items()):
             print('KNOWN-FINDING: property=%s key=%s %s [%d occurrences, e.g. %s]' % (
                 self.pid, key, self.known[key].get('what', ''), h['n'], str(h['example'])[:300]))
-        rdir = os.path.join(VERIF, 'replays', self.pid)
+        rdir = os.path.join(OUT, 'replays', self.pid)
         seen = set()
         for v in self.violations:
             blob = json.dumps({'property': self.pid, 'key': v['key'], 'what': v['what'], 'case': v['case'],
@@ -315,8 +318,8 @@ class Check:
             cov.update(extra_cov)
         ev = {'property_id': self.pid, 'tier': tier(), 'seed': seed(), 'level': self.level, 'coverage': cov,
               'assumptions': self.assumptions, 'wall_s': wall, 'violations': len(self.violations)}
-        os.makedirs(os.path.join(VERIF, 'evidence'), exist_ok=True)
-        with open(os.path.join(VERIF, 'evidence', self.pid + '.json'), 'w') as f:
+        os.makedirs(os.path.join(OUT, 'evidence'), exist_ok=True)
+        with open(os.path.join(OUT, 'evidence', self.pid + '.json'), 'w') as f:
             json.dump(ev, f, indent=1, default=str)
         print('%s %s: %d evaluations, %d distinct classes, %d spec states, %d traces/replays, %d violations, '
               '%d known-finding keys, %.1fs' % (self.pid, tier(), self.evaluations, len(self.distinct), states,
